@@ -287,6 +287,17 @@ CEval(e, rd) ==
                    [] f = "max_index" -> CInt(MaxIndex([i \in 1..Len(as) |-> ToNat(A(i))]) - 1)
                    [] f = "clamp" -> CV("u", FromInt(Clamp(ToNat(A(1)), P(1), P(2)), Len(A(1))))
                    [] f = "count" -> CInt(Count([i \in 1..(Len(as) - 1) |-> ToNat(A(i))], ToNat(A(Len(as)))))
+                   \* "choose_first: returns the first VALUE with a truthy CONDITION or default if no such CONDITION exists"
+                   \* arguments: c1, v1, c2, v2, ..., default
+                   [] f = "choose_first" -> LET n == (Len(as) - 1) \div 2
+                                                hits == {i \in 1..n : CTruth(as[2 * i - 1])}
+                                            IN IF hits # {} THEN as[2 * (CHOOSE i \in hits : \A j \in hits : i <= j)] ELSE as[Len(as)]
+                   \* "cond[T](cond, on_true, on_false): a type checked wrapper around an if expression"
+                   [] f = "cond" -> IF CTruth(as[1]) THEN as[2] ELSE as[3]
+                   \* "select[T](arg, branches, default): a type checked wrapper around cohdl.select_with"; arguments: arg, k1, v1, ..., default
+                   [] f = "select" -> LET n == (Len(as) - 2) \div 2
+                                          hits == {i \in 1..n : LET c == CCompare("eq", as[1], as[2 * i]) IN ~CIsErr(c) /\ c.v = 1}
+                                      IN IF hits # {} THEN as[2 * (CHOOSE i \in hits : \A j \in hits : i <= j) + 1] ELSE as[Len(as)]
                    [] OTHER -> CErr("reject:unknown helper " \o f)
     [] OTHER -> CErr("reject:expression kind " \o e.k)
 =============================================================================
